@@ -92,6 +92,9 @@ def make_mw(name, inplace, stub):
         return MW.SortFieldsAlphabeticallyMiddleware(allow_inplace_modification=inplace)
     if name == "sortcustom":
         return MW.SortFieldsCustomMiddleware(order=("t", "author"), allow_inplace_modification=inplace)
+    if name == "sortcustomcs":
+        # the order handed in as a (mutable) list and used as it is (case_sensitive=True)
+        return MW.SortFieldsCustomMiddleware(order=["t", "author"], case_sensitive=True, allow_inplace_modification=inplace)
     if name == "separate":
         return MW.SeparateCoAuthors(allow_inplace_modification=inplace)
     if name == "splitnames":
@@ -117,7 +120,7 @@ ALWAYS_COPY = ("sortblocks", "sortblocks2")
 def always_copy(stack):
     return all(n in ALWAYS_COPY for n in stack if n != "=")
 
-NAMES = ["remove", "add{", "addq", "resolve", "monthint", "monthabbr", "monthlong", "normkeys", "sortalpha", "sortcustom", "separate",
+NAMES = ["remove", "add{", "addq", "resolve", "monthint", "monthabbr", "monthlong", "normkeys", "sortalpha", "sortcustom", "sortcustomcs", "separate",
          "splitnames", "mergeparts", "mergeco", "sortblocks", "sortblocks2", "latexenc", "latexdec"]
 
 
